@@ -36,6 +36,8 @@ func main() {
 		rc = cmdReplay(os.Args[2:])
 	case "fingerprints":
 		rc = cmdFingerprints(os.Args[2:])
+	case "selftest":
+		rc = cmdSelftest(os.Args[2:])
 	case "gen":
 		rc = cmdGen(os.Args[2:])
 	case "scenarios":
